@@ -407,6 +407,21 @@ fn run_op(w: &mut World, op: &Value) -> Value {
             }));
             json!(if r.is_ok() { "answered" } else { "refused" })
         }
+        "announce" => {
+            // `count` valid headers on top of block `on`, offered as next block headers
+            use bitcoin::consensus::Encodable;
+            let mut prev = *w.blocks[&op["on"].as_u64().unwrap()].header();
+            let mut blobs = vec![];
+            for _ in 0..op["count"].as_u64().unwrap_or(1) {
+                let b = BlockBuilder::with_prev_header(prev).build();
+                let mut v = vec![];
+                b.header.consensus_encode(&mut v).unwrap();
+                blobs.push(ctypes::BlockHeaderBlob::from(v));
+                prev = b.header;
+            }
+            with_state_mut(|s| state::insert_next_block_headers(s, &blobs));
+            json!({"announced": blobs.len()})
+        }
         "watchdog_decision" => {
             let hs: Vec<Option<u64>> = op["heights"].as_array().unwrap().iter().map(|x| x.as_u64()).collect();
             let r = watchdog::verif_hooks::decision(op["target"].as_u64().unwrap() as usize, op["canister_height"].as_u64(), hs);
@@ -898,8 +913,20 @@ fn run_op(w: &mut World, op: &Value) -> Value {
             } else {
                 let _ = with_state_mut(state::ingest_stable_blocks_into_utxoset);
             }
-            let tip = ic_btc_canister::get_blockchain_info().height;
             let mut queries = vec![];
+            let phases: Vec<&str> = if op["resume"].as_bool().unwrap_or(false) { vec!["first", "after-resume"] } else { vec!["first"] };
+            let mut tip = 0;
+            for phase in phases {
+            if phase == "after-resume" {
+                // finish the paused ingestion (and whatever else can stabilise) without further pauses
+                let mut guard = 0;
+                while guard < 16 {
+                    guard += 1;
+                    vh::set_performance_counter(0);
+                    match with_state_mut(state::ingest_stable_blocks_into_utxoset) { ctypes::Slicing::Paused(()) => continue, _ => break }
+                }
+            }
+            tip = ic_btc_canister::get_blockchain_info().height;
             for s_ in 0..=tip {
                 for e_ in s_..=tip {
                     let r = ic_btc_canister::get_block_headers(GetBlockHeadersRequest { start_height: s_, end_height: Some(e_), network: NetworkInRequest::Regtest });
@@ -918,8 +945,9 @@ fn run_op(w: &mut World, op: &Value) -> Value {
                             }
                         }
                     }
-                    queries.push(json!({"start": s_, "end": e_, "problem": problem}));
+                    queries.push(json!({"start": s_, "end": e_, "problem": problem, "phase": phase}));
                 }
+            }
             }
             json!({"paused": paused, "stable_height": with_state(|s| s.stable_height()), "tip": tip, "queries": queries})
         }
